@@ -118,18 +118,18 @@ theorem C01_dynamic_positions (T : Tables) (edition s4max : Nat) (s4len : Int) (
 
 /-- **the decoder the correspondence runs (`decodeDataB`: `bufr_decode_message_subsets` with the data
 present bit-map head of `bufr_apply_tables2node`) is the decoder the theorems above are about
-(`decodeData`)**, for uncompressed data, whenever the expanded template holds no 2 36 YYY operator
-and no replicated class 33 element — i.e. on every template of this property's quantifier.
-Partial: the compressed loop is not covered (the streams tie it), and the closure of the quiet
-nodes under the decoder's on-the-fly expansion (`QClosed`, `hE`) is a hypothesis, not yet derived
-from "no Table D sequence contains such a descriptor". -/
-theorem C01_bitmap_head_inert_partial (T : Tables) (fuel : Nat) (t : Template) (enforce : Enforce) (nsub : Nat)
-    (s4max : Nat) (data : List Nat) (from0 to0 : Int) (hT : QClosed T)
-    (hE : ∀ bsq0, expandSequence T fuel (OP_EXPAND_DELAY_REPL ||| OP_ZDRC_SKIP) t.gabarit = .ok bsq0 →
-            ∀ x ∈ bsq0, quietNode x = true) :
+(`decodeData`)**, for uncompressed data, whenever neither the template nor any Table D sequence
+holds a 2 36 YYY operator or a class 33 element (`QuietTables`; the closure of such node lists
+under template expansion and under the decoder's on-the-fly expansion of delayed replications is
+proved, `quiet_ok`, `qclosed_of_quietTables`) — i.e. on every template of this property's quantifier.
+Partial: the compressed lock-step loop is not covered by a theorem (the streams tie it). -/
+theorem C01_bitmap_head_inert_partial (T : Tables) (hT : QuietTables T) (fuel : Nat) (t : Template)
+    (ht : ∀ n ∈ t.gabarit, quietNode n = true) (enforce : Enforce) (nsub : Nat)
+    (s4max : Nat) (data : List Nat) (from0 to0 : Int) :
     decodeDataB T fuel t enforce nsub false s4max data from0 to0 =
       decodeData T fuel t enforce nsub false s4max data from0 to0 :=
-  decodeDataB_quiet_uncompressed T fuel t enforce nsub s4max data from0 to0 hT hE
+  decodeDataB_quiet_uncompressed T fuel t enforce nsub s4max data from0 to0 (qclosed_of_quietTables T hT)
+    (fun bsq0 h => expandSequence_quiet T hT fuel _ t.gabarit bsq0 ht h)
 
 /-- the subset loop itself, for any template: while no bit-map operator is met the loop with the
 bit-map head *is* the plain loop -/
